@@ -20,6 +20,10 @@
 #include "hash.h"
 #include "format_specification.h"
 
+#ifdef CDNS_VERIF
+struct CdnsVerifProbe; // verification harness probe (read-only access to private state)
+#endif
+
 namespace CDNS {
 
     /**
@@ -71,6 +75,9 @@ namespace CDNS {
         }
 
     private:
+#ifdef CDNS_VERIF
+        friend struct ::CdnsVerifProbe;
+#endif
         /**
          * @brief reference to the item
          */
@@ -209,6 +216,9 @@ namespace CDNS {
         }
 
     private:
+#ifdef CDNS_VERIF
+        friend struct ::CdnsVerifProbe;
+#endif
         /**
          * @brief Record the key to the latest item in the vector.
          * 
